@@ -38,7 +38,7 @@ func (impl Implementation) Dgeqrf(m, n int, a []float64, lda int, tau, work []fl
 	// Quick return if possible.
 	k := min(m, n)
 	if k == 0 {
-		work[0] = 1
+		work[0] = float64(max(1, n))
 		return
 	}
 
